@@ -174,6 +174,14 @@ pub(crate) mod verif_probe {
                 let mut t = RefTruth { status: b'I', ..RefTruth::default() };
                 let mut pending: Vec<Vec<u8>> = vec![];
                 let mut ignore_till_sync = false;
+                let mut stmts: HashMap<Vec<u8>, Vec<u8>> = HashMap::new();
+                let mut portals: HashMap<Vec<u8>, Vec<u8>> = HashMap::new();
+                let cstrings = |body: &[u8], n: usize| -> Vec<Vec<u8>> {
+                    let mut out = vec![]; let mut cur = vec![];
+                    for b in body { if out.len() == n { break; } if *b == 0 { out.push(cur.clone()); cur.clear(); } else { cur.push(*b); } }
+                    while out.len() < n { out.push(vec![]); }
+                    out
+                };
                 let mut nreq = 0usize;
                 loop {
                     let code = match sock.read_u8().await { Ok(c) => c, Err(_) => return };
@@ -194,7 +202,9 @@ pub(crate) mod verif_probe {
                             b'c' => { t.copy_in = false; deliver.push(pmsg(b'C', b"COPY 1\0")); deliver.push(pmsg(b'Z', &[t.status])); }
                             b'f' => { t.copy_in = false; if t.status != b'I' { t.status = b'E'; }
                                       deliver.push(pmsg(b'E', b"SERROR\0C57014\0MCOPY failed\0\0")); deliver.push(pmsg(b'Z', &[t.status])); }
-                            _ => { t.copy_in = false; handled = false; }
+                            b'H' | b'S' => {}
+                            _ => { t.copy_in = false; if t.status != b'I' { t.status = b'E'; }
+                                   deliver.push(pmsg(b'E', b"SERROR\0C08P01\0Munexpected message type during COPY from stdin\0\0")); deliver.push(pmsg(b'Z', &[t.status])); }
                         }
                     }
                     if !handled {
@@ -246,11 +256,39 @@ pub(crate) mod verif_probe {
                                 t.unsynced = true;
                                 if !ignore_till_sync {
                                     match code {
-                                        b'P' => { if body.first().copied().unwrap_or(0) != 0 { t.named += 1; } pending.push(pmsg(b'1', b"")); }
-                                        b'B' => pending.push(pmsg(b'2', b"")),
+                                        b'P' => { if body.first().copied().unwrap_or(0) != 0 { t.named += 1; }
+                                                  let cs = cstrings(&body, 2); stmts.insert(cs[0].clone(), cs[1].clone());
+                                                  pending.push(pmsg(b'1', b"")); }
+                                        b'B' => { let cs = cstrings(&body, 2); portals.insert(cs[0].clone(), cs[1].clone()); pending.push(pmsg(b'2', b"")); }
                                         b'D' => pending.push(pmsg(b'n', b"")),
-                                        b'E' => { let mut dr = vec![0u8, 1]; dr.extend_from_slice(&6i32.to_be_bytes()); dr.extend_from_slice(tag.as_bytes());
-                                                  pending.push(pmsg(b'D', &dr)); pending.push(pmsg(b'C', b"SELECT 1\0")); }
+                                        b'E' => {
+                                            let cs = cstrings(&body, 1);
+                                            let sql = portals.get(&cs[0]).and_then(|st| stmts.get(st)).cloned();
+                                            let u = sql.map(|q| String::from_utf8_lossy(&q).trim().trim_end_matches(';').to_ascii_uppercase().split_whitespace().collect::<Vec<_>>().join(" "));
+                                            let mut done = false;
+                                            if let Some(u) = &u {
+                                                let ends = ["ROLLBACK", "ABORT", "COMMIT", "END"].contains(&u.as_str());
+                                                if t.status == b'E' && !ends {
+                                                    pending.push(pmsg(b'E', b"SERROR\0C25P02\0Mcurrent transaction is aborted\0\0")); ignore_till_sync = true; done = true;
+                                                } else if u == "BEGIN" || u == "START TRANSACTION" || u.starts_with("BEGIN ") {
+                                                    t.status = b'T'; pending.push(pmsg(b'C', b"BEGIN\0")); done = true;
+                                                } else if ends {
+                                                    let failed = t.status == b'E'; t.status = b'I';
+                                                    pending.push(pmsg(b'C', if failed || u == "ROLLBACK" || u == "ABORT" { b"ROLLBACK\0" } else { b"COMMIT\0" })); done = true;
+                                                } else if u.starts_with("SET LOCAL") { pending.push(pmsg(b'C', b"SET\0")); done = true; }
+                                                else if u.starts_with("SET ") {
+                                                    if t.status == b'I' { if u.starts_with("SET ROLE") { t.role_set = true; } else { t.dirty_set = true; } }
+                                                    pending.push(pmsg(b'C', b"SET\0")); done = true;
+                                                } else if u.starts_with("ERROR") || u.contains("1/0") {
+                                                    if t.status != b'I' { t.status = b'E'; }
+                                                    pending.push(pmsg(b'E', b"SERROR\0C22012\0Mdivision by zero\0\0")); ignore_till_sync = true; done = true;
+                                                }
+                                            }
+                                            if !done {
+                                                let mut dr = vec![0u8, 1]; dr.extend_from_slice(&6i32.to_be_bytes()); dr.extend_from_slice(tag.as_bytes());
+                                                pending.push(pmsg(b'D', &dr)); pending.push(pmsg(b'C', b"SELECT 1\0"));
+                                            }
+                                        }
                                         b'C' => pending.push(pmsg(b'3', b"")),
                                         _ => { deliver.append(&mut pending); }
                                     }
@@ -716,41 +754,56 @@ pub(crate) mod verif_probe {
                 let rt = tokio::runtime::Builder::new_multi_thread().worker_threads(2).enable_all().build().unwrap();
                 let vv = v.clone();
                 Some(rt.block_on(async move {
-                    let listener = TcpListener::bind("127.0.0.1:0").await.unwrap();
-                    let port = listener.local_addr().unwrap().port();
                     let log: SharedLog = Arc::new(Mutex::new(RefLog::default()));
-                    tokio::spawn(ref_postgres(listener, log.clone(), 0));
+                    let nservers = vv["servers"].as_u64().unwrap_or(2) as usize;
+                    let mut servers = vec![];
+                    for i in 0..nservers {
+                        let listener = TcpListener::bind("127.0.0.1:0").await.unwrap();
+                        let port = listener.local_addr().unwrap().port();
+                        tokio::spawn(ref_postgres(listener, log.clone(), i));
+                        servers.push(crate::config::ServerConfig { host: "127.0.0.1".to_string(), port, role: if i == 0 { Role::Primary } else { Role::Replica } });
+                    }
                     let mut cfg = crate::config::Config::default();
                     cfg.general.validate_config = false;
                     cfg.general.connect_timeout = 400;
                     let db = format!("verif_cap_{}", std::time::SystemTime::now().duration_since(std::time::UNIX_EPOCH).unwrap().as_nanos());
                     let mut pool = crate::config::Pool::default();
                     pool.shards.clear();
-                    pool.shards.insert("0".to_string(), crate::config::Shard { database: "db".to_string(), mirrors: None,
-                        servers: vec![crate::config::ServerConfig { host: "127.0.0.1".to_string(), port, role: Role::Primary }] });
+                    pool.shards.insert("0".to_string(), crate::config::Shard { database: "db".to_string(), mirrors: None, servers });
                     let n = vv["pool_size"].as_u64().unwrap() as u32;
                     let mut user = User::default();
                     user.username = "u".to_string();
                     user.password = Some("pw".to_string());
                     user.pool_size = n;
                     pool.users.insert("0".to_string(), user);
+                    // a second user with a different size: sizes must not be mixed up
+                    let mut user2 = User::default();
+                    user2.username = "u2".to_string();
+                    user2.password = Some("pw".to_string());
+                    user2.pool_size = n + 2;
+                    pool.users.insert("1".to_string(), user2);
                     cfg.pools.insert(db.clone(), pool);
                     crate::config::verif_probe::set_config(cfg);
                     let csm: ClientServerMap = Arc::new(Mutex::new(HashMap::new()));
                     if let Err(e) = ConnectionPool::from_config(csm).await { return json!({"error": format!("{:?}", e)}); }
                     let cp = match get_pool(&db, "u") { Some(p) => p, None => return json!({"error": "pool missing"}) };
                     let extra = vv["extra"].as_u64().unwrap_or(2) as u32;
-                    let mut held = vec![];
-                    for _ in 0..(n + extra) {
-                        match timeout(Duration::from_millis(1500), cp.databases[0][0].get()).await {
-                            Ok(Ok(c)) => held.push(c),
-                            _ => break,
+                    // the smallest number of connections any server of this (pool, user) lets us hold at once, and the largest
+                    let mut min_held = usize::MAX; let mut max_held = 0usize;
+                    for si in 0..nservers {
+                        let mut held = vec![];
+                        for _ in 0..(n + extra) {
+                            match timeout(Duration::from_millis(1500), cp.databases[0][si].get()).await {
+                                Ok(Ok(c)) => held.push(c),
+                                _ => break,
+                            }
                         }
+                        min_held = std::cmp::min(min_held, held.len());
+                        max_held = std::cmp::max(max_held, held.len());
+                        drop(held);
                     }
-                    let max_held = held.len();
                     let conns = log.lock().conns;
-                    drop(held);
-                    json!({"pool_size": n, "held_at_once": max_held, "backend_connections": conns})
+                    json!({"pool_size": n, "held_at_once": max_held, "held_at_once_min": min_held, "backend_connections": conns})
                 }))
             }
             "reload_pools" => {
